@@ -41,6 +41,10 @@ M = [
  ("m45-new-node-may-vote", "changeconfig.go", "			if n.Voter {\n				t.reply(fmt.Errorf(\"raft.changeConfig: new node %d must be nonvoter\", id))", "			if n.Voter && false {\n				t.reply(fmt.Errorf(\"raft.changeConfig: new node %d must be nonvoter\", id))", "C11"),
  ("m49-publish-half-received-snapshot", "rpc.go", "	meta, doneErr := sink.done(err)\n	if err != nil {\n		return readErr, err\n	}", "	meta, doneErr := sink.done(nil)\n	if err != nil {\n		return readErr, err\n	}", "C09"),
  ("m51-address-change-ignored", "conn.go", "	for _, n := range config.Nodes {\n		r.addrs[n.ID] = n.Addr\n	}", "	for _, n := range config.Nodes {\n		if _, ok := r.addrs[n.ID]; !ok {\n			r.addrs[n.ID] = n.Addr\n		}\n	}", "C17"),
+ ("m52-older-snapshot-replaces-newer", "snapshots.go", "	if s.meta.index > s.snaps.index {", "	if s.meta.index > 0 {", "C19"),
+ ("m53-shared-label-temp-file", "snapshots.go", "	file := metaFile(s.snaps.dir, s.meta.index) + \".tmp\"", "	file := filepath.Join(s.snaps.dir, \"meta.tmp\")", "C15"),
+ ("m54-no-log-reset-on-open", "storage.go", "	if s.log.LastIndex() < s.snaps.index {", "	if s.log.LastIndex() < s.snaps.index && false {", "C10"),
+ ("m55-old-removal-shuts-down-again", "config.go", "		if r.shutdownOnRemove && wasMember && r.configs.Latest.Index != r.removedAtStart {", "		if r.shutdownOnRemove && wasMember {", "C17"),
  ("m38-swap-fields", "messages.go", "	if req.lastLogIndex, err = readUint64(r); err != nil {\n		return err\n	}\n	if req.lastLogTerm, err = readUint64(r); err != nil {", "	if req.lastLogTerm, err = readUint64(r); err != nil {\n		return err\n	}\n	if req.lastLogIndex, err = readUint64(r); err != nil {", "C18"),
  ("m40-commit-regress", "rpc.go", "		term == req.term && // don't commit any entry, until leader has committed an entry with his term\n		index > r.commitIndex // haven't we committed yet", "		term == req.term // don't commit any entry, until leader has committed an entry with his term", "C19"),
  ("m41-identity-and", "rpc.go", "		if r.cid != req.cid || r.nid != req.nid {", "		if r.cid != req.cid && r.nid != req.nid {", "C20"),
